@@ -78,6 +78,11 @@ func profC04(t *tape.Tape) model.Profile {
 		p.Subs = [2]int{1, 3}
 	case 3:
 		p.Deviations = [2]int{2, 6}
+		if t.Chance(1, 2) {
+			// un-appliable deviations: their errors arise after the last sweep over the trees
+			p.Invalid = []string{model.InvDevMissing, model.InvDevAddDefault, model.InvDevDelDefault, model.InvDevDelOther, model.InvDevMinNonList, model.InvDevDelMin, model.InvDevBadType, model.InvDevUnknownKind, model.InvDevGone, model.InvDevDoubleNS}
+			p.InvalidPct = 25
+		}
 	case 4:
 		p.Subs = [2]int{2, 4}
 		p.Mods = [2]int{1, 3}
@@ -217,7 +222,7 @@ func (c04Driver) Run(cc core.Case) core.Outcome {
 		// (with two revisions of a module loaded and importers pinned to the
 		// older one, a collision the reference model sees among the latest
 		// revisions may not arise: the invariant alone is checked then)
-		if why := model.MustReport(c.Scenario); len(why) > 0 {
+		if why := model.MustReportWith(c.Scenario, c.Options.IgnoreNotSupported); len(why) > 0 {
 			mustReport = why[0]
 		}
 	}
